@@ -14,6 +14,8 @@ import MpVerif.C04.Builder
                                                  -> `ok <node>: v v v | <node>: ...` or `raise`
          node contents persist between calls (each call = `runFromReg prev`: only the registered nodes are cleaned)
     trace <pre|post> <kind> <node> <idx> <nloaded> <node>*   -> symbolic origin of a cell (see Trace.lean)
+    round <r> <ismip> <solved> <nint> <0|1>* <nx> <v>*   -> `round <roundCount> <roundStep …>` (mip:round post-processing)
+    roundlast <r> <ismip> <solved> <node> <0|1>*        -> the same applied to node <node> of the state the last `call` returned
     wf2 <ndest> <node>*          -> `wf2 <nodesRegistered> <traceWF (zero = not a loaded target node)>`
     arms on | arms report       instrumentation (Arms.lean): count the model arms taken by the following `call`s
     sources <node> <idx> <nloaded> <node>*   -> `sources ok n:i ...` (m2mSourcesRev + srcsUnwritten) | `sources none` | `sources written`
@@ -185,6 +187,28 @@ def handle (st : DState) (toks : List String) : DState × String :=
       let b := st.g.entries.dropWhile (fun e => !e.postWrites t)
       let o := tracePost kind zero b t
       (st, s!"reach {if reachPost a (un, ui) t then 1 else 0} " ++ (match o with | some o => o.show | none => "none"))
+    | _, _, _ => (st, "bad-op")
+  | "round" :: r :: ismip :: solved :: nint :: rest =>
+    match r.toInt?, ismip.toNat?, solved.toNat?, nint.toNat? with
+    | some r, some ismip, some solved, some nint =>
+      match nats (rest.take nint), (rest.drop nint) with
+      | some bs, nx :: xs =>
+        match nx.toNat?, rats xs with
+        | some nx, some xs =>
+          if xs.length ≠ nx || bs.length ≠ nint then (st, "bad-op") else
+          let isInt := bs.map (· != 0)
+          let v := roundStep r (ismip != 0) (solved != 0) isInt xs
+          (st, s!"round {roundCount isInt xs} " ++ " ".intercalate (v.map showRat))
+        | _, _ => (st, "bad-op")
+      | _, _ => (st, "bad-op")
+    | _, _, _, _ => (st, "bad-op")
+  | "roundlast" :: r :: ismip :: solved :: node :: bits =>
+    match r.toInt?, nats [ismip, solved, node], nats bits with
+    | some r, some [ismip, solved, node], some bs =>
+      let isInt := bs.map (· != 0)
+      let x := readNode st.prev node (st.g.size node)
+      let v := roundStep r (ismip != 0) (solved != 0) isInt x
+      (st, s!"round {roundCount isInt x} " ++ " ".intercalate (v.map showRat))
     | _, _, _ => (st, "bad-op")
   | "wf2" :: nd :: dest =>
     match nd.toNat?, nats dest with
